@@ -11,33 +11,27 @@ use std::process::{Command, Stdio};
 struct Scenario {
   plan: &'static str,
   what: &'static str,
+  /// preemption bound
+  bound: &'static str,
 }
 
-fn scenarios(thorough: bool) -> (Vec<Scenario>, &'static str) {
+fn scenarios(thorough: bool) -> Vec<Scenario> {
   // call table of harness/loomh: 0 All(A=5) 1 Quote(A=500) 2 All(A=42) 3 Quote(A=5) 4 All(A=500) 5 Quote(A=42)
+  let mut v = vec![
+    Scenario { plan: "1/3", what: "two threads, the decision that invokes the decision service as a function, different inputs", bound: "2" },
+    Scenario { plan: "0/2", what: "two threads, the decision over table, regular expression and temporal decisions, different inputs", bound: "2" },
+    Scenario { plan: "0/1", what: "two threads, different invocables", bound: "2" },
+  ];
   if thorough {
-    (
-      vec![
-        Scenario { plan: "1/3", what: "two threads, the decision that invokes the decision service as a function, different inputs" },
-        Scenario { plan: "0/2", what: "two threads, the decision over table, regular expression and temporal decisions, different inputs" },
-        Scenario { plan: "0/1", what: "two threads, different invocables" },
-        Scenario { plan: "1,0/3,2", what: "two threads, two calls each, same invocables in the same order" },
-        Scenario { plan: "1,2/4,3", what: "two threads, two calls each, different invocables crossing" },
-        Scenario { plan: "1/3/5", what: "three threads, the service-invoking decision" },
-        Scenario { plan: "0/3/4", what: "three threads, mixed invocables" },
-      ],
-      "3",
-    )
-  } else {
-    (
-      vec![
-        Scenario { plan: "1/3", what: "two threads, the decision that invokes the decision service as a function, different inputs" },
-        Scenario { plan: "0/2", what: "two threads, the decision over table, regular expression and temporal decisions, different inputs" },
-        Scenario { plan: "0/1", what: "two threads, different invocables" },
-      ],
-      "2",
-    )
+    for s in v.iter_mut() {
+      s.bound = "3";
+    }
+    v.push(Scenario { plan: "1,0/3,2", what: "two threads, two calls each, same invocables in the same order", bound: "2" });
+    v.push(Scenario { plan: "1,2/4,3", what: "two threads, two calls each, different invocables crossing", bound: "2" });
+    v.push(Scenario { plan: "1/3/5", what: "three threads, the service-invoking decision", bound: "2" });
+    v.push(Scenario { plan: "0/3/4", what: "three threads, mixed invocables", bound: "2" });
   }
+  v
 }
 
 fn prepare(run: &Run) -> Option<(String, J)> {
@@ -101,8 +95,8 @@ pub fn run() {
     None => run.finish(),
   };
   let root = crate::report::root();
-  let (scs, bound) = scenarios(thorough);
-  let max_duration = if thorough { "900" } else { "120" };
+  let scs = scenarios(thorough);
+  let max_duration: u64 = if thorough { 2400 } else { 120 };
   // one child per scenario, in parallel
   let children: Vec<_> = scs
     .iter()
@@ -111,9 +105,9 @@ pub fn run() {
         .arg(format!("{}/models/conc.dmn", root))
         .arg(s.plan)
         .env("TZ", "UTC")
-        .env("LOOM_MAX_PREEMPTIONS", bound)
+        .env("LOOM_MAX_PREEMPTIONS", s.bound)
         .env("LOOM_MAX_BRANCHES", "1000000")
-        .env("LOOM_MAX_DURATION", max_duration)
+        .env("LOOM_MAX_DURATION", max_duration.to_string())
         .env("RUST_BACKTRACE", "0")
         .stdout(Stdio::piped())
         .stderr(Stdio::piped())
@@ -135,13 +129,23 @@ pub fn run() {
     let stdout = String::from_utf8_lossy(&out.stdout).into_owned();
     let stderr = String::from_utf8_lossy(&out.stderr).into_owned();
     let num = |key: &str| stdout.lines().find_map(|l| l.strip_prefix(key).and_then(|v| v.trim().parse::<u64>().ok()));
+    let bound = s.bound;
     let replay = json!({"engine":"c20","plan":s.plan,"preemption_bound":bound});
     if out.status.success() {
       let ex = num("EXECUTIONS ").unwrap_or(0);
       total_exec += ex;
       total_traces += num("TRACES ").unwrap_or(0);
-      // loom stops silently at LOOM_MAX_DURATION: the harness cannot tell, so the wall time is compared by the caller
-      per.insert(s.plan.to_string(), json!({"what": s.what, "executions": ex, "distinct_lock_traces": num("TRACES "), "distinct_outcomes": num("OUTCOMES "), "complete": true}));
+      // loom stops silently at LOOM_MAX_DURATION: a run that lasted that long was cut and is not exhaustive
+      let elapsed = num("ELAPSED ").unwrap_or(max_duration);
+      let complete = elapsed + 2 < max_duration;
+      if !complete {
+        all_complete = false;
+        println!("NOTE: scenario {} (preemption bound {}) was cut by the time cap of {} s after {} executions: explored without violation, not exhaustive", s.plan, bound, max_duration, ex);
+      }
+      per.insert(
+        s.plan.to_string(),
+        json!({"what": s.what, "preemption_bound": bound, "executions": ex, "distinct_lock_traces": num("TRACES "), "distinct_outcomes": num("OUTCOMES "), "complete": complete, "elapsed_s": elapsed, "time_cap_s": max_duration}),
+      );
       run.outcome(&format!("{}:held", s.plan));
     } else if out.status.code() == Some(2) {
       run.machinery_error(&format!("loom harness, scenario {}: {}", s.plan, stderr.lines().rev().take(3).collect::<Vec<_>>().join(" | ")));
@@ -167,7 +171,7 @@ pub fn run() {
   run.set("distinct_nontrivial", json!(total_traces));
   run.set("rule", json!("executions = complete interleavings explored by loom (DPOR, preemption bound as stated) of the scenario's threads against one shared evaluator built inside the execution; distinct_nontrivial = distinct lock traces (sequences of read / write lock and unlock events of the evaluator registries) observed over those executions"));
   run.set("exhaustive", json!(all_complete));
-  run.set("preemption_bound", json!(bound));
+  run.set("preemption_bound", json!(if thorough { "3 for two threads x one call, 2 for two threads x two calls and three threads" } else { "2" }));
   run.set("scenarios", J::Object(per));
   run.set("instrumentation", summary);
   run.assume("verif_sync shim (harness/verif_sync): loom Mutex / Condvar / atomics, std Arc, writer-preferring RwLock with reader count and poisoning; lazily initialised statics (regular expressions, decimal contexts) are initialised once per process and are not scheduling points; memory-ordering effects weaker than what loom models for the intercepted primitives are outside this check");
